@@ -4,7 +4,7 @@
 From Coq Require Import List Bool ZArith NArith.
 Import ListNotations.
 From Verif Require Import Common.ListX Gen.Tables C16.UcTables C16.Lex C16.Reader C16.Spec C16.RegexRef
-  C16.ProofsTerm C16.ProofsTables C16.ProofsRefute.
+  C16.ProofsTerm C16.ProofsLoc C16.ProofsTables C16.ProofsRefute.
 Local Open Scope N_scope.
 
 (** ** obligations on the tables regenerated from reader.py, runtime.py and the running CPython *)
@@ -49,6 +49,42 @@ Proof. exact t_features. Qed.
     [length s + 1] (top-level forms) suffices: the reader answers with forms or an exception *)
 Theorem C16_terminates : forall orc (s : list N), read_all orc s <> Err EFuel.
 Proof. exact read_all_terminates. Qed.
+
+(** ** only syntax errors: an exception which is neither SyntaxError nor UnexpectedEOFError can only
+    arise while a syntax-quoted form is processed; for every text without a backquote the answer is
+    forms, a syntax error or an unexpected-EOF error.  (Partial: the guard [no_backquote]; the
+    refutation below shows that the guard is needed.) *)
+Theorem C16_only_syntax_errors_partial :
+  forall orc s t, no_backquote s = true -> read_all orc s <> Err (EOther t).
+Proof. exact only_syntax_errors_partial. Qed.
+Example C16_only_syntax_errors_nonvacuous :
+  no_backquote [40; 97; 32; 35; 123; 49; 125; 32; 39; 98; 41] = true.      (* (a #{1} 'b) *)
+Proof. reflexivity. Qed.
+
+(** ** errors carry a true location: the line and column of every syntax error (of either class) is
+    the location, in the sense of Spec.spec_loc, of a position 0..length s of the text, or the
+    location of the end of input moved k columns to the right (the stream reader can be advanced
+    past the end) *)
+Theorem C16_errors_carry_loc :
+  forall orc s l c,
+    read_all orc s = Err (ESyntax l c) \/ read_all orc s = Err (EEof l c) ->
+    (exists n, (n <= length s)%nat /\ (l, c) = spec_loc s n) \/
+    (exists k, (l, c) = (fst (spec_loc s (length s)), snd (spec_loc s (length s)) + N.of_nat k)).
+Proof. exact errors_carry_spec_loc. Qed.
+(** the reader's incremental line/column bookkeeping (LF, CR LF, CR) is the true location *)
+Theorem C16_update_loc_spec :
+  forall s n, (n <= length s)%nat ->
+    (line (adv_n n (init s)), col (adv_n n (init s))) = spec_loc s n.
+Proof. exact update_loc_is_spec. Qed.
+
+(** ** complete but malformed text is not reported as unexpected EOF: an UnexpectedEOFError is only
+    ever raised with the reader at the end of the input (its location is the end of input, possibly
+    moved k columns to the right) *)
+Theorem C16_complete_malformed_not_eof :
+  forall orc s l c,
+    read_all orc s = Err (EEof l c) ->
+    exists k, (l, c) = (fst (spec_loc s (length s)), snd (spec_loc s (length s)) + N.of_nat k).
+Proof. exact eof_only_at_end_spec. Qed.
 
 (** ** witnesses *)
 Theorem C16_only_syntax_errors_syntax_quote_refuted :
@@ -95,6 +131,11 @@ Print Assumptions C16_table_unicode_classes.
 Print Assumptions C16_table_ascii_classes.
 Print Assumptions C16_table_features.
 Print Assumptions C16_terminates.
+Print Assumptions C16_only_syntax_errors_partial.
+Print Assumptions C16_only_syntax_errors_nonvacuous.
+Print Assumptions C16_errors_carry_loc.
+Print Assumptions C16_update_loc_spec.
+Print Assumptions C16_complete_malformed_not_eof.
 Print Assumptions C16_only_syntax_errors_syntax_quote_refuted.
 Print Assumptions C16_incomplete_is_eof_reader_macro_refuted.
 Print Assumptions C16_span_fidelity_set_refuted.
